@@ -21,6 +21,12 @@ func vpC01Oracle(l *vpLedger, ver *common.VersionedTransaction) string {
 	special := 0
 	for _, i := range ver.Inputs {
 		switch {
+		case i.Mint != nil:
+			// an input carrying a mint payload makes the transaction a mint
+			// (a deposit payload on the same input is then decoration): the
+			// value entering the ledger is the mint amount that gets recorded
+			special++
+			in.Add(in, vpLBig(i.Mint.Amount))
 		case i.Deposit != nil:
 			special++
 			in.Add(in, vpLBig(i.Deposit.Amount))
@@ -31,9 +37,6 @@ func vpC01Oracle(l *vpLedger, ver *common.VersionedTransaction) string {
 			if old != nil && (old.Chain != i.Deposit.Chain || old.AssetKey != i.Deposit.AssetKey) {
 				return fmt.Sprintf("deposit of (%s,%s) accepted into asset %s bound to (%s,%s)", i.Deposit.Chain, i.Deposit.AssetKey, ver.Asset, old.Chain, old.AssetKey)
 			}
-		case i.Mint != nil:
-			special++
-			in.Add(in, vpLBig(i.Mint.Amount))
 		case len(i.Genesis) > 0:
 			return "genesis input accepted"
 		default:
@@ -281,7 +284,7 @@ func vpC01GenUnits(t *rapid.T, label string) *big.Int {
 // deposit whose asset info contradicts the stored binding, must be rejected.
 func TestVP_C01_deposit_mint(t *testing.T) {
 	c := kit.New(t, "C01", "rapid: custodian-signed deposits and mints with output total equal / off by one unit / split, and deposits whose (chain,key) contradicts the asset's stored binding; oracle = same recomputation; non-trivial = rejected twin or accepted tx on an asset with history")
-	c.Require("deposit-ok", "deposit-off", "deposit-info", "mint-off")
+	c.Require("deposit-ok", "deposit-off", "deposit-info", "mint-off", "double-payload")
 	kit.SetChecks(kit.N(150, 6000))
 	rapid.Check(t, func(t *rapid.T) {
 		l := vpLNewLedger(7, "c01d", 4)
@@ -324,6 +327,41 @@ func TestVP_C01_deposit_mint(t *testing.T) {
 				t.Fatalf("deposit with foreign asset info accepted for bound asset %s", a.Name)
 			}
 			c.Case(wrong.PayloadHash().String(), true, "deposit-info")
+		}
+		// one input carrying both a mint and a deposit payload with different
+		// amounts (decodable and canonical): whatever is accepted must create
+		// exactly the amount of the payload that types the transaction
+		{
+			m1 := big.NewInt(rapid.Int64Range(2, 1000000).Draw(t, "dp_mint"))
+			d1 := new(big.Int).Add(m1, big.NewInt(rapid.Int64Range(1, 1000000).Draw(t, "dp_delta")))
+			if rapid.Bool().Draw(t, "dp_less") {
+				m1, d1 = d1, m1
+			}
+			for _, outAmt := range []*big.Int{m1, d1} {
+				tx := common.NewTransactionV5(common.XINAssetId)
+				tx.Inputs = append(tx.Inputs, &common.Input{
+					Mint:    &common.MintData{Group: "UNIVERSAL", Batch: l.MintBatch + 7, Amount: vpLInt(m1)},
+					Deposit: &common.DepositData{Chain: l.Assets[0].Chain, AssetKey: l.Assets[0].Key, Transaction: "0xdouble", Index: 0, Amount: vpLInt(d1)},
+				})
+				l.addOutputs(tx, []vpLOut{{Type: common.OutputTypeScript, Owners: owners, Threshold: th, Amount: vpLInt(outAmt)}})
+				signed := &common.SignedTransaction{Transaction: *tx}
+				_ = signed.SignRaw(l.Custodian.PrivateSpendKey)
+				ver := signed.AsVersioned()
+				back, derr := common.UnmarshalVersionedTransaction(ver.Marshal())
+				if derr != nil {
+					t.Fatalf("double-payload input does not round-trip: %v", derr)
+				}
+				var err error
+				if p := vpLCatch(func() { err = back.Validate(l.Store, ts, false) }); p != nil {
+					t.Fatalf("Validate panicked on a double-payload input: %v", p)
+				}
+				if err == nil {
+					if v := vpC01Oracle(l, back); v != "" {
+						t.Fatalf("accepted transaction whose input carries mint %s and deposit %s: %s", m1, d1, v)
+					}
+				}
+				c.Case(back.PayloadHash().String(), true, "double-payload")
+			}
 		}
 		// mint off by one
 		mamt := big.NewInt(rapid.Int64Range(2, 1000000000).Draw(t, "mamt"))
